@@ -233,7 +233,7 @@ func genGated(w *world, t *trace.W, r *rng.R, srv bool) {
 			continue
 		}
 		w.run(t, op2)
-		if res := w.run(t, "release"); strings.HasSuffix(res, " parked") {
+		if res := w.run(t, "release"); res == "parked" {
 			w.run(t, "release")
 		}
 	}
